@@ -271,9 +271,9 @@ func oracle(c *hx.NegCase, o *hx.Observed) [][2]string {
 							break
 						}
 						advAll = append(advAll, centry{ch.Req, *g})
-						if eligible(*g, cur) {
-							cache[g.Space] = centry{ch.Req, *g}
-						}
+						// remembered whether or not its prerequisites hold yet; the map is keyed by
+						// name space, a later child in the same name space replaces an earlier one
+						cache[g.Space] = centry{ch.Req, *g}
 					}
 				}
 			}
@@ -357,14 +357,14 @@ func oracle(c *hx.NegCase, o *hx.Observed) [][2]string {
 						fail("voluntary-first", "required feature "+f.Space+" taken while voluntary "+v.f.Space+" was still open")
 					}
 				}
-				// the literal reading: also a voluntary feature that was advertised while its
-				// prerequisites did not hold (so it is not in the cache) and is eligible now
+				// the literal reading: also a voluntary feature that is not in the cache because
+				// a later child in the same name space replaced it
 				for _, a := range advAll {
-					if cv, cached := cache[a.f.Space]; a.req || (cached && !cv.req && cv.f.Local == a.f.Local) {
-						continue
+					if cv, cached := cache[a.f.Space]; a.req || (cached && cv.f.Local == a.f.Local) {
+						continue // required, or in the cache (a repeated child: the later required flag counts)
 					}
 					if a.f.Neg && !negd[a.f.Space] && eligible(a.f, st) {
-						fail("not-eligible-when-advertised/voluntary-first", "required feature "+f.Space+" taken while voluntary "+a.f.Space+", advertised before its prerequisites held and eligible now, was still open")
+						fail("same-namespace-shadowed/voluntary-first", "required feature "+f.Space+" taken while voluntary "+a.f.Space+" "+a.f.Local+", replaced in the cache by a later child in the same name space, was still open")
 					}
 				}
 			}
@@ -374,7 +374,9 @@ func oracle(c *hx.NegCase, o *hx.Observed) [][2]string {
 				negFailed = true
 			}
 			if !e.O.Err {
-				cur |= e.O.Mask
+				// Ready is not a bit a feature can add while the list is being worked on: it
+				// takes effect when the feature set is done and no restart is pending
+				cur |= e.O.Mask &^ hx.NegReady
 				selfReady = selfReady || e.O.Mask&hx.NegReady != 0
 				if e.O.Restart {
 					needHeader = true
@@ -390,20 +392,18 @@ func oracle(c *hx.NegCase, o *hx.Observed) [][2]string {
 		if o.Bits&cur != cur {
 			fail("monotone", "final state lost bits")
 		}
-		if needHeader && selfReady {
-			fail("established/restart-pending", "session established although the last negotiated feature asked for a stream restart (a feature's own mask contained Ready)")
-		} else if needHeader {
+		if needHeader {
 			fail("restart-header", "session established although the last negotiated feature asked for a stream restart")
 		}
-		// the literal reading: a feature the last list marked required that was not eligible
-		// then (so it is not in the cache) but is eligible now
+		// the literal reading: a feature the last list marked required that is not in the
+		// cache because a later child in the same name space replaced it
 		for _, a := range advAll {
 			g := a.f
-			if ce, cached := cache[g.Space]; !a.req || (cached && ce.req && ce.f.Local == g.Local) {
-				continue // voluntary, or covered by pendingRequired below
+			if ce, cached := cache[g.Space]; !a.req || (cached && ce.f.Local == g.Local) {
+				continue // voluntary, or in the cache (covered by pendingRequired below; a repeated child: the later required flag counts)
 			}
 			if g.Neg && !negd[g.Space] && eligible(g, cur) {
-				fail("not-eligible-when-advertised/established", "session established while a feature the last advertisement marked required, whose prerequisites did not hold when it was advertised but hold now, was not negotiated: "+g.Space)
+				fail("same-namespace-shadowed/established", "session established while a feature the last advertisement marked required was not negotiated: a later child in the same name space replaced it in the cache: "+g.Space+" "+g.Local)
 			}
 		}
 		if pendingRequired() && !selfReady {
@@ -414,6 +414,9 @@ func oracle(c *hx.NegCase, o *hx.Observed) [][2]string {
 	}
 	if o.Class != "panic" && o.Class != "timeout" && o.Bits != 0 && o.Bits&^(cur|hx.NegReady) != 0 {
 		fail("bits-accounted", fmt.Sprintf("final state %d has bits beyond the initial state, the masks of the successful negotiations (%d) and Ready", o.Bits, cur))
+	}
+	if (o.Class == "policy" || o.Class == "feature" || o.Class == "other") && o.Bits&hx.NegReady != 0 {
+		fail("error-ready", "negotiation ended in an error and the session that was returned has the Ready bit")
 	}
 	if o.Class == "ok" && negFailed {
 		fail("feature-error", "a feature's Negotiate returned an error and the session was reported established all the same")
@@ -950,7 +953,11 @@ func corpus() []recCase {
 	out = append(out, recCase{Note: "voluntary feature advertised while not eligible, eligible when the required one is taken", NegCase: hx.NegCase{
 		Feats: []hx.FeatSpec{a, vn, cr}, In: []hx.Item{hdr, fl(ch(a, false), ch(vn, false), ch(cr, true)), fl()},
 		Outs: []hx.Outcome{{Mask: A}, {Mask: 0}}}})
-	// Ready together with a restart (known finding)
+	// two configured features in one name space: the later advertised child shadows the earlier one (known finding)
+	a2 := hx.FeatSpec{Space: a.Space, Local: "a2"}
+	out = append(out, recCase{Note: "required feature shadowed by a later informational child in the same name space", NegCase: hx.NegCase{
+		Feats: []hx.FeatSpec{a, a2}, In: []hx.Item{hdr, fl(ch(a, true), ch(a2, false))}}})
+	// Ready together with a restart
 	out = append(out, recCase{Note: "Ready in the mask of a restarting feature", NegCase: hx.NegCase{
 		Feats: []hx.FeatSpec{a}, In: []hx.Item{hdr, fl(ch(a, false))},
 		Outs: []hx.Outcome{{Mask: R, Restart: true}}}})
